@@ -18,7 +18,11 @@ type Store struct {
 	fail   map[string]bool
 	onRead bool
 	all    bool
+	gets   int
 }
+
+// Gets is the number of Get calls served so far.
+func (f *Store) Gets() int { f.mu.Lock(); defer f.mu.Unlock(); return f.gets }
 
 // SetFailAll makes every Get fail (or heals the store).
 func (f *Store) SetFailAll(on bool) {
@@ -57,6 +61,7 @@ func (b *badReader) Close() error { return nil }
 func (f *Store) Get(ctx context.Context, key string) (io.ReadCloser, error) {
 	f.mu.Lock()
 	bad, onRead := f.fail[key], f.onRead
+	f.gets++
 	if f.all {
 		bad, onRead = true, false
 	}
